@@ -55,3 +55,19 @@ Proof.
   vm_compute. repeat split; reflexivity.
 Qed.
 Print Assumptions C03_gain_offset_degenerate_window_refuted.
+
+(* ---- tie to the source (gen/Pipeline.v, regenerated on every run by translate/pipeline.py from kernel_model.RefSpaceModel / SrcSpaceModel,
+        fuse._process_block / process, compare.get_block_sums) *)
+From HV Require Import Kernel.Flow Tie.PipelineTie.
+From HVgen Require Import Pipeline.
+(* in the CURRENT source, with partial masking off, the parameters that are applied carry the source block's mask on both processing grids,
+   so - whatever the fit, the re-projections and the numbers stored under invalid source pixels - a corrected pixel is valid only where
+   the source pixel is *)
+Theorem C03_source_no_invented_pixels src_mask cover cover_near g o x q pv :
+  (param_valid (gen_ref_apply_mask false) src_mask cover cover_near = Some pv \/ param_valid (gen_src_fit_mask false) src_mask cover cover_near = Some pv) ->
+  corrected pv g o x = Fin q -> src_mask = true.
+Proof. exact (source_no_invented_pixels src_mask cover cover_near g o x q pv). Qed.
+Theorem C03_source_mask_flow mp : Pipeline.translation_failed = false /\ gen_ref_apply_mask mp = ref_apply_mask mp /\ gen_src_fit_mask mp = src_fit_mask mp /\
+  gen_ref_apply_params_ok = true /\ gen_block_flow_ok = true.
+Proof. destruct (pipeline_tied0 mp) as (A & _ & (B & C) & (_ & _ & _ & D & _ & _ & E & _)). repeat split; assumption. Qed.
+Print Assumptions C03_source_no_invented_pixels.
